@@ -109,12 +109,36 @@ static std::string mkval(long id)
 	for(size_t i=0;i<n;i++) r+=char((id*131+i*7)&0xff);   // all byte values incl. NUL
 	return r;
 }
+// Value codes (field "v" of the trace): 0 = the EMPTY string, 2*id = mkval(id),
+// 2*id+1 = a proper prefix of mkval(id).  All three kinds are stored by every driver, so that
+// "hit with an empty value" differs from "miss" and from "the previous, longer value".
+static std::string mkprefix(long id)
+{
+	std::string f=mkval(id);
+	char b[32]; size_t h=snprintf(b,sizeof(b),"V%ld;",id);
+	size_t n=f.size()-h;
+	if(n<2) return f.substr(0,h-1);          // "V<id>" without the ';'
+	return f.substr(0,h+n/2);
+}
+static std::string valbytes(long vc)
+{
+	if(vc==0) return std::string();
+	return (vc&1) ? mkprefix(vc/2) : mkval(vc/2);
+}
 static long unval(std::string const &s)
 {
-	if(s.empty()||s[0]!='V') return -1;
+	if(s.empty()) return 0;
+	if(s[0]!='V') return -1;
 	long id=atol(s.c_str()+1);
-	return mkval(id)==s ? id : -1;
+	if(id<=0) return -1;
+	if(mkval(id)==s) return 2*id;
+	if(mkprefix(id)==s) return 2*id+1;
+	return -1;
 }
+// every client passes the SAME std::string object to all its fetches (never cleared in between), as
+// an application that reuses a buffer would: a fetch that does not overwrite it shows the old bytes
+static std::string outbuf[8];
+static long lastfull[17];   // per key: id of the most recent full value stored (0 = none)
 
 // ---- world ------------------------------------------------------------------------------
 static void build_world(int srvthreads)
@@ -170,6 +194,7 @@ static void quiesce()
 	for(int s=0;s<NS;s++) servers[s].backing->clear();
 	for(int c=0;c<NC;c++) if(clients[c].l1) clients[c].l1->clear();
 	vt::fake_now=vt::clock_base;
+	memset(lastfull,0,sizeof(lastfull));
 	std::set<std::string> none;
 	for(int s=0;s<NS;s++) {
 		uint64_t g=0;
@@ -227,19 +252,29 @@ static std::set<std::string> trigset(std::vector<int> const &ts)
 {
 	std::set<std::string> r; for(size_t i=0;i<ts.size();i++) r.insert(nm(ts[i])); return r;
 }
-static void op_store(int c,int k,std::vector<int> const &ts,int dl)
+// vkind: 0 fresh full value, 1 empty value, 2 prefix of the value stored before under this key
+static long pick_value(int k,int vkind)
 {
+	if(vkind==1) return 0;
+	if(vkind==2 && lastfull[k]>0) { long vc=2*lastfull[k]+1; lastfull[k]=0; return vc; }
 	long id=++vcounter;
-	clients[c].cache->store(nm(k),mkval(id),trigset(ts),vt::clock_base+dl);
+	lastfull[k]=id;
+	return 2*id;
+}
+static void op_store(int c,int k,std::vector<int> const &ts,int dl,int vkind=0)
+{
+	long vc=pick_value(k,vkind);
+	clients[c].cache->store(nm(k),valbytes(vc),trigset(ts),vt::clock_base+dl);
 	std::set<int> tset(ts.begin(),ts.end());
-	vt::J j; j.s("e","Op").i("c",c).s("op","store").i("k",k).i("v",id).a("ts",tset).i("dl",dl);
+	vt::J j; j.s("e","Op").i("c",c).s("op","store").i("k",k).i("v",vc).a("ts",tset).i("dl",dl);
 	observe(j,c); tr.line(j.str());
 }
 struct fres { bool hit; long v; std::set<int> ts; bool bad; long long dl; long long gen; };
 static fres do_fetch(int c,int k)
 {
 	fres r; r.hit=false; r.v=-1; r.bad=false; r.dl=0; r.gen=0;
-	std::string v; std::set<std::string> trig; time_t dl=0; uint64_t gen=0;
+	std::string &v=outbuf[c];     // reused, still holding what the previous fetch of this client left in it
+	std::set<std::string> trig; time_t dl=0; uint64_t gen=0;
 	r.hit=clients[c].cache->fetch(nm(k),&v,&trig,&dl,&gen);   // a fresh, empty set - as cache_interface passes
 	if(r.hit) {
 		for(std::set<std::string>::iterator p=trig.begin();p!=trig.end();++p) { int t=unnm(*p); if(t<0) r.bad=true; r.ts.insert(t); }
@@ -275,13 +310,13 @@ static void op_tick(int d)
 	vt::J j; j.s("e","Tick").i("d",d); observe(j,-1); tr.line(j.str());
 }
 
-struct op { int kind,c,a,b,d; }; // kind 0 store(c,k=a,tsmask=b,dl=d) 1 fetch(c,a) 2 rise(c,a) 3 clear(c) 4 tick(a)
+struct op { int kind,c,a,b,d,e; }; // kind 0 store(c,k=a,tsmask=b,dl=d,vkind=e) 1 fetch(c,a) 2 rise(c,a) 3 clear(c) 4 tick(a)
 static void apply(op const &o)
 {
 	switch(o.kind) {
 	case 0: { std::vector<int> ts; for(int i=0;i<NT;i++) if(o.b&(1<<i)) ts.push_back(17+i);
 		  for(int i=0;i<NK;i++) if(o.b&(1<<(8+i))) ts.push_back(1+i);
-		  op_store(o.c,o.a,ts,o.d); } break;
+		  op_store(o.c,o.a,ts,o.d,o.e); } break;
 	case 1: op_fetch(o.c,o.a); break;
 	case 2: op_rise(o.c,o.a); break;
 	case 3: op_clear(o.c); break;
@@ -409,13 +444,14 @@ static void client_thread(thr_arg a)
 			int k=1+R(NK);
 			std::vector<int> ts; if(NT>0 && R(2)) ts.push_back(17+R(NT));
 			if(NK>1 && R(4)==0) ts.push_back(1+R(NK));
-			long id; { booster::unique_lock<booster::mutex> g(vc_mutex); id=++vcounter; }
+			unsigned vk=R(100);
+			long id; { booster::unique_lock<booster::mutex> g(vc_mutex); id=pick_value(k, vk<20 ? 1 : vk<38 ? 2 : 0); }
 			int dl = R(5)==0 ? 0 : 50;
 			std::set<int> tset(ts.begin(),ts.end());
 			vt::J j; j.a("ts",tset);
 			std::string tsj=j.str(); // {"ts":[..]}
 			BOOSTER_VERIF_EMIT("\"e\":\"Inv\",\"c\":%d,\"op\":\"store\",\"k\":%d,\"v\":%ld,%s,\"dl\":%d",c,k,id,tsj.substr(1,tsj.size()-2).c_str(),dl);
-			clients[c].cache->store(nm(k),mkval(id),trigset(ts),vt::clock_base+dl);
+			clients[c].cache->store(nm(k),valbytes(id),trigset(ts),vt::clock_base+dl);
 			BOOSTER_VERIF_EMIT("\"e\":\"Ret\",\"c\":%d,\"op\":\"store\"",c);
 		}
 		else if(x<80) {
@@ -479,15 +515,17 @@ int main(int argc,char **argv)
 		std::vector<op> alphabet;
 		for(int c=0;c<NC;c++) {
 			for(int k=1;k<=NK;k++) for(int m=0;m<(1<<NT);m++) {
-				if(!(dlmode&1)) { op o={0,c,k,m,50}; alphabet.push_back(o); }
-				else for(int dl=0;dl<=1;dl++) { op o={0,c,k,m,dl}; alphabet.push_back(o); }
+				for(int vk=0;vk<((dlmode&4)?3:1);vk++) {
+					if(!(dlmode&1)) { op o={0,c,k,m,50,vk}; alphabet.push_back(o); }
+					else for(int dl=0;dl<=1;dl++) { op o={0,c,k,m,dl,vk}; alphabet.push_back(o); }
+				}
 			}
-			for(int k=1;k<=NK;k++) { op o={1,c,k,0,0}; alphabet.push_back(o); }
-			for(int t=0;t<NT;t++) { op o={2,c,17+t,0,0}; alphabet.push_back(o); }
-			if(!(dlmode&2)) for(int k=1;k<=NK;k++) { op o={2,c,k,0,0}; alphabet.push_back(o); }
-			{ op o={3,c,0,0,0}; alphabet.push_back(o); }
+			for(int k=1;k<=NK;k++) { op o={1,c,k,0,0,0}; alphabet.push_back(o); }
+			for(int t=0;t<NT;t++) { op o={2,c,17+t,0,0,0}; alphabet.push_back(o); }
+			if(!(dlmode&2)) for(int k=1;k<=NK;k++) { op o={2,c,k,0,0,0}; alphabet.push_back(o); }
+			{ op o={3,c,0,0,0,0}; alphabet.push_back(o); }
 		}
-		if(dlmode&1) { op o={4,0,1,0,0}; alphabet.push_back(o); }
+		if(dlmode&1) { op o={4,0,1,0,0,0}; alphabet.push_back(o); }
 		size_t A=alphabet.size();
 		std::vector<size_t> idx(depth,0);
 		long sh_i=0,sh_n=1; if(getenv("VERIF_SHARD")) sscanf(getenv("VERIF_SHARD"),"%ld/%ld",&sh_i,&sh_n);
@@ -522,7 +560,8 @@ int main(int argc,char **argv)
 					if(R(5)==0) ts.push_back(1+R(NK));
 					int dl = now + (int)R(6) - 1;
 					if(R(3)==0) dl = now + 1000;
-					op_store(c,1+R(NK),ts,dl);
+					unsigned vk=R(100);
+					op_store(c,1+R(NK),ts,dl, vk<20 ? 1 : vk<38 ? 2 : 0);
 				}
 				else if(x<76) op_fetch(c,1+R(NK));
 				else if(x<88) op_rise(c,(NT>0 && R(3)) ? 17+R(NT) : 1+R(NK));
@@ -539,6 +578,7 @@ int main(int argc,char **argv)
 		std::string w;
 		while(std::cin>>w) {
 			if(w=="store") { int c,k,n,dl; std::cin>>c>>k>>dl>>n; std::vector<int> ts(n); for(int i=0;i<n;i++) std::cin>>ts[i]; op_store(c,k,ts,dl); }
+			else if(w=="storev") { int c,k,n,dl,vk; std::cin>>c>>k>>dl>>vk>>n; std::vector<int> ts(n); for(int i=0;i<n;i++) std::cin>>ts[i]; op_store(c,k,ts,dl,vk); }
 			else if(w=="fetch") { int c,k; std::cin>>c>>k; op_fetch(c,k); }
 			else if(w=="rise") { int c,k; std::cin>>c>>k; op_rise(c,k); }
 			else if(w=="clear") { int c; std::cin>>c; op_clear(c); }
